@@ -191,7 +191,7 @@ def pk(props=("C16", "C03"), recipe=(1, 1), n_pallets=2, blocking=True, split_ou
         ii = [ctx.real("ii", 0.25, 3) if "ii" in sym else 1 for _ in range(n_ing)]
         pd = ctx.real("pd", 0, 3) if "pd" in sym else 1
         sd = ctx.real("sd", 0, split_sd_hi) if split_pd == "sym" and "sd" in sym else 1
-        od = ctx.real("od", 0, 3) if out_delay == "sym" else out_delay
+        od = ctx.real("od", 0, 3) if out_delay in ("sym", "sym-first") else out_delay
         if out_delay == "sym-each":
             # a fresh symbolic delay for every object entering the edge (a consumer that is sometimes slow, sometimes fast)
             od = F.delay_source("MIDDELAY", [ctx.real("od", 0, 4) for _ in range(n_pallets)], "generator", after=0)
@@ -239,7 +239,8 @@ def pk(props=("C16", "C03"), recipe=(1, 1), n_pallets=2, blocking=True, split_ou
             for j in range(split_out):
                 k = F.add_node(Sink(env, f"K{j}"))
                 sinks.append(k)
-                eo = _edge(F, out_kind, f"OUT{j}", out_cap, od, **(conv_kw or {}))
+                # "sym-first": only the first out-edge is slow (congestion on some out-edges only)
+                eo = _edge(F, out_kind, f"OUT{j}", out_cap, (od if j == 0 else 0) if out_delay == "sym-first" else od, **(conv_kw or {}))
                 eo.connect(spl, k)
         F.step_hooks.append(mon_capacity)
         if "C16" in F.props or "C08" in F.props:
